@@ -31,6 +31,22 @@ type Val struct {
 	L    []Val   `json:"l,omitempty"`
 }
 
+// float is the number of a double/float spec: F, or the special value named by S ("nan", "inf",
+// "-inf", "-0": JSON cannot carry them as numbers).
+func (v Val) float() float64 {
+	switch v.S {
+	case "nan":
+		return math.NaN()
+	case "inf":
+		return math.Inf(1)
+	case "-inf":
+		return math.Inf(-1)
+	case "-0":
+		return math.Copysign(0, -1)
+	}
+	return v.F
+}
+
 // TV builds the TypedValue (nil for Kind "none").
 func (v Val) TV() *pb.TypedValue {
 	switch v.Kind {
@@ -43,9 +59,9 @@ func (v Val) TV() *pb.TypedValue {
 	case "bool":
 		return &pb.TypedValue{Value: &pb.TypedValue_BoolVal{BoolVal: v.B}}
 	case "double":
-		return &pb.TypedValue{Value: &pb.TypedValue_DoubleVal{DoubleVal: v.F}}
+		return &pb.TypedValue{Value: &pb.TypedValue_DoubleVal{DoubleVal: v.float()}}
 	case "float":
-		return &pb.TypedValue{Value: &pb.TypedValue_FloatVal{FloatVal: float32(v.F)}}
+		return &pb.TypedValue{Value: &pb.TypedValue_FloatVal{FloatVal: float32(v.float())}}
 	case "bytes":
 		return &pb.TypedValue{Value: &pb.TypedValue_BytesVal{BytesVal: []byte(v.S)}}
 	case "decimal":
